@@ -161,6 +161,14 @@ def validate(module, traces, tables=None, shards=None, timeout=1800, extra_env=N
         if ms:
             states += int(ms[-1][0])
             distinct += int(ms[-1][1])
+        if 'TLC threw an unexpected exception' in out or 'TLC was unable to fingerprint' in out:
+            # TLC re-prints buffered output after such an error: report the error itself, not a duplicate verdict
+            keepf = os.path.join(BUILD, 'last-tlc-failure.log')
+            with open(keepf, 'w') as f:
+                f.write(cmd + '\n' + out[:200000] + '\n...\n' + out[-20000:])
+            i0 = out.find('Error: TLC threw')
+            raise MachineryError('TLC failed while evaluating %s (shard %d); log: %s\n%s'
+                                 % (module, k, keepf, out[i0:i0 + 600] if i0 >= 0 else out[-2000:]))
         for m in _V_RE.finditer(out):
             tid = m.group(1)
             tid = tid[1:-1] if tid.startswith('"') else int(tid)
